@@ -195,23 +195,70 @@ class Refs(object):
                 H = numpy.array([al.UTPM.extract_hessian(N, yh[m]) for m in range(yh.shape[0])])
         return J, H, scalar
 
+    def forward_jacobian_along_curve(self, prog, data):
+        """Taylor coefficients of every Jacobian entry along x(t), from forward mode alone.
+        With g(t, s) = f(x(t) + s e_j), the coefficient of t^d in J_ij(x(t)) is g_{d,1}.  The
+        univariate h_k(tau) = f(x(tau) + k tau e_j) has tau^(d+1)-coefficient sum_b k^b g_{d+1-b,b},
+        a polynomial of degree <= d+1 in k whose linear coefficient is g_{d,1}; propagate
+        k = 0..D with degree D+1 and interpolate exactly (Vandermonde system in rationals)."""
+        from fractions import Fraction
+        al = self.al
+        D, P, N = data.shape
+        ks = list(range(D + 1))
+        # exact inverse of the Vandermonde matrix V[a][b] = k_a^b
+        V = [[Fraction(k) ** b for b in range(D + 1)] for k in ks]
+        n = D + 1
+        A = [row[:] + [Fraction(int(i == r)) for i in range(n)] for r, row in enumerate(V)]
+        for c in range(n):
+            piv = next(r for r in range(c, n) if A[r][c] != 0)
+            A[c], A[piv] = A[piv], A[c]
+            pv = A[c][c]
+            A[c] = [v / pv for v in A[c]]
+            for r in range(n):
+                if r != c and A[r][c] != 0:
+                    f = A[r][c]
+                    A[r] = [a - f * b for a, b in zip(A[r], A[c])]
+        Vinv = numpy.array([[float(v) for v in row[n:]] for row in A])      # coefficients = Vinv . values
+        out = None
+        for p in range(P):
+            for j in range(N):
+                ys = []
+                for k in ks:
+                    c = numpy.zeros((D + 2, 1, N))
+                    c[:D, 0, :] = data[:, p, :]
+                    c[1, 0, j] += k
+                    y = self.direct(prog, [al.UTPM(c)])[0]
+                    ys.append(numpy.asarray(y.data[:, 0]).reshape(D + 2, -1))
+                ys = numpy.array(ys)                                   # (k, coefficient, M)
+                M = ys.shape[2]
+                if out is None:
+                    out = numpy.zeros((D, P, M, N))
+                for d in range(D):
+                    coeff = Vinv.dot(ys[:, d + 1, :])                  # polynomial coefficients in k
+                    out[d, p, :, j] = coeff[1]
+        return out
+
     def truth(self, prog, step):
         """Expected driver result from forward mode / the exact model."""
         name = step['name']
         out = {}
         scalar = len(prog['out_shapes'][0]) == 0
         if name == 'jacobian_utpm':
-            if not prog['exact']:
-                return out
             data = numpy.array(step['x'], dtype=float)
+
+            def as_utpm(a):
+                a = numpy.ascontiguousarray(a)
+                return {'k': 'utpm', 'sh': list(a.shape), 'dt': a.dtype.str, 'hx': a.tobytes().hex()}
             try:
-                want = exact.jacobian_along_curve(prog, data)
+                out['forward'] = as_utpm(self.forward_jacobian_along_curve(prog, data))
             except Exception as e:
-                # the exact model cannot run this program (counted, never silent)
-                self.count('note:exact_model_error:%s' % type(e).__name__)
-                return out
-            a = numpy.ascontiguousarray(want)
-            out['exact'] = {'k': 'utpm', 'sh': list(a.shape), 'dt': a.dtype.str, 'hx': a.tobytes().hex()}
+                self.notes.append('forward truth (curve) raised: %s' % type(e).__name__)
+            if prog['exact']:
+                try:
+                    out['exact'] = as_utpm(exact.jacobian_along_curve(prog, data))
+                except Exception as e:
+                    # the exact model cannot run this program (counted, never silent)
+                    self.count('note:exact_model_error:%s' % type(e).__name__)
             return out
         x = numpy.array(step['x'], dtype=float)
         need_H = name in ('hessian', 'hess_vec', 'vec_hess', 'vec_hess_vec')
